@@ -27,18 +27,21 @@ theorem mem_entsOf {dl p form : Str} {v : Txt} {e : Ent} (h : e ∈ entsOf dl p 
 /-- the blocks of one element's leaf assignments -/
 inductive Block (dl : Str) (f : Flat) (e : Ent) : Prop
   | msg (k : String) (hk : k ∈ ["jr:constraintMsg", "jr:requiredMsg", "jr:noAppErrorString"]) (hp : e.path = path f.xpath k)
+      (hf : e.form = "long".toList) (hl : (e.lang, e.text) ∈ langsOf dl (msgOf f.d k))
   | label (hp : e.path = path f.xpath "label") (hf : e.form = "long".toList) (hl : (e.lang, e.text) ∈ langsOf dl f.d.label)
   | hint (hp : e.path = path f.xpath "hint") (hf : e.form = "long".toList) (hl : (e.lang, e.text) ∈ langsOf dl f.d.hint)
   | guidance (hp : e.path = path f.xpath "hint") (hf : e.form = "guidance".toList)
       (hl : (e.lang, e.text) ∈ langsOf dl f.d.guidance)
   | media (m : Media) (hm : f.d.media = some m) (hp : e.path = path f.xpath "label") (hf : e.form ∈ m.map (·.1))
+      (hl : ∃ kv ∈ m, e.form = kv.1 ∧ (e.lang, e.text) ∈ langsOf dl kv.2)
 
 theorem msgEntries_block {dl : Str} {f : Flat} {e : Ent} (k : String)
     (hk : k ∈ ["jr:constraintMsg", "jr:requiredMsg", "jr:noAppErrorString"])
     (h : e ∈ msgEntries dl f.xpath f.d k) : Block dl f e := by
   simp only [msgEntries] at h
   split at h
-  · exact .msg k hk (mem_entsOf h).1
+  · obtain ⟨h1, h2, h3⟩ := mem_entsOf h
+    exact .msg k hk h1 h2 h3
   · cases h
 
 theorem block_of_mem {dl : Str} {f : Flat} {e : Ent} (h : e ∈ elemEntries dl f ++ mediaEntries dl f) :
@@ -93,20 +96,20 @@ theorem block_of_mem {dl : Str} {f : Flat} {e : Ent} (h : e ∈ elemEntries dl f
       split at h
       · unfold mediaEnts at h
         obtain ⟨kv, hkv, hin⟩ := List.mem_flatMap.mp h
-        obtain ⟨h1, h2, _⟩ := mem_entsOf hin
-        exact .media m hm h1 (by rw [h2]; exact List.mem_map.mpr ⟨kv, hkv, rfl⟩)
+        obtain ⟨h1, h2, h3⟩ := mem_entsOf hin
+        exact .media m hm h1 (by rw [h2]; exact List.mem_map.mpr ⟨kv, hkv, rfl⟩) ⟨kv, hkv, h2, h3⟩
       · cases h
 
 theorem block_display {dl : Str} {f : Flat} {e : Ent} (h : Block dl f e) : ∃ d ∈ displays, e.path = path f.xpath d := by
   cases h with
-  | msg k hk hp =>
+  | msg k hk hp _ _ =>
     refine ⟨k, ?_, hp⟩
     simp only [List.mem_cons, List.mem_nil_iff, or_false] at hk
     rcases hk with rfl | rfl | rfl <;> decide
   | label hp _ _ => exact ⟨"label", by decide, hp⟩
   | hint hp _ _ => exact ⟨"hint", by decide, hp⟩
   | guidance hp _ _ => exact ⟨"hint", by decide, hp⟩
-  | media m _ hp _ => exact ⟨"label", by decide, hp⟩
+  | media m _ hp _ _ => exact ⟨"label", by decide, hp⟩
 
 theorem eq_of_xpath {fs : List Flat} (hn : (fs.map (·.xpath)).Nodup) {f g : Flat} (hf : f ∈ fs) (hg : g ∈ fs)
     (h : f.xpath = g.xpath) : f = g := by
@@ -175,7 +178,7 @@ theorem value_label {x : Survey} (hx : ((flats x).map (·.xpath)).Nodup) {f : Fl
     have hform : e'.form = "long".toList := hk.2.2.symm
     have hpath : e'.path = path f.xpath "label" := hk.2.1.symm
     cases hb with
-    | msg k hkk hp =>
+    | msg k hkk hp _ _ =>
       simp only [List.mem_cons, List.mem_nil_iff, or_false] at hkk
       rcases hkk with rfl | rfl | rfl <;>
         exact absurd (hp.symm.trans hpath) (path_ne (by decide) (by decide) (by decide))
@@ -184,7 +187,7 @@ theorem value_label {x : Survey} (hx : ((flats x).map (·.xpath)).Nodup) {f : Fl
       exact hok.functional (e'.lang, e'.text) hlab (l, t) hlt hk.1.symm
     | hint hp _ _ => exact absurd (hp.symm.trans hpath) (path_ne (by decide) (by decide) (by decide))
     | guidance hp _ _ => exact absurd (hp.symm.trans hpath) (path_ne (by decide) (by decide) (by decide))
-    | media m hm _ hfm => exact absurd (hform ▸ hfm) (hok.mediaNotLong m hm)
+    | media m hm _ hfm _ => exact absurd (hform ▸ hfm) (hok.mediaNotLong m hm)
   have h1 := valueAt_setup_agree he hag
   exact valueAt_pad x.lists _ _ _ _ _ h1
 
@@ -207,7 +210,7 @@ theorem value_hint {x : Survey} (hx : ((flats x).map (·.xpath)).Nodup) {f : Fla
     have hform : e'.form = "long".toList := hk.2.2.symm
     have hpath : e'.path = path f.xpath "hint" := hk.2.1.symm
     cases hb with
-    | msg k hkk hp =>
+    | msg k hkk hp _ _ =>
       simp only [List.mem_cons, List.mem_nil_iff, or_false] at hkk
       rcases hkk with rfl | rfl | rfl <;>
         exact absurd (hp.symm.trans hpath) (path_ne (by decide) (by decide) (by decide))
@@ -216,7 +219,7 @@ theorem value_hint {x : Survey} (hx : ((flats x).map (·.xpath)).Nodup) {f : Fla
       rw [hl] at hh
       exact hfun (e'.lang, e'.text) hh (l, t) hlt hk.1.symm
     | guidance _ hfg _ => exact absurd (hfg.symm.trans hform) (by decide)
-    | media m _ hp _ => exact absurd (hp.symm.trans hpath) (path_ne (by decide) (by decide) (by decide))
+    | media m _ hp _ _ => exact absurd (hp.symm.trans hpath) (path_ne (by decide) (by decide) (by decide))
   have h1 := valueAt_setup_agree he hag
   exact valueAt_pad x.lists _ _ _ _ _ h1
 
@@ -239,7 +242,7 @@ theorem value_guidance {x : Survey} (hx : ((flats x).map (·.xpath)).Nodup) {f :
     have hform : e'.form = "guidance".toList := hk.2.2.symm
     have hpath : e'.path = path f.xpath "hint" := hk.2.1.symm
     cases hb with
-    | msg k hkk hp =>
+    | msg k hkk hp _ _ =>
       simp only [List.mem_cons, List.mem_nil_iff, or_false] at hkk
       rcases hkk with rfl | rfl | rfl <;>
         exact absurd (hp.symm.trans hpath) (path_ne (by decide) (by decide) (by decide))
@@ -248,7 +251,216 @@ theorem value_guidance {x : Survey} (hx : ((flats x).map (·.xpath)).Nodup) {f :
     | guidance _ _ hg =>
       rw [hl] at hg
       exact hfun (e'.lang, e'.text) hg (l, t) hlt hk.1.symm
-    | media m _ hp _ => exact absurd (hp.symm.trans hpath) (path_ne (by decide) (by decide) (by decide))
+    | media m _ hp _ _ => exact absurd (hp.symm.trans hpath) (path_ne (by decide) (by decide) (by decide))
+  have h1 := valueAt_setup_agree he hag
+  exact valueAt_pad x.lists _ _ _ _ _ h1
+
+/-- **translated bind message** (`jr:constraintMsg`, `jr:requiredMsg`, `jr:noAppErrorString`) -/
+theorem value_msg {x : Survey} (hx : ((flats x).map (·.xpath)).Nodup) {f : Flat} (hf : f ∈ flats x)
+    (hv : visited f = true) {k : String} (hk : k ∈ ["jr:constraintMsg", "jr:requiredMsg", "jr:noAppErrorString"])
+    {pairs : List (Str × Str)} (hm : msgOf f.d k = .dict pairs) (hfun : Functional pairs)
+    {l t : Str} (hlt : (l, t) ∈ pairs) :
+    valueAt (table x) l (path f.xpath k) "long".toList = some t := by
+  let e : Ent := ⟨l, path f.xpath k, "long".toList, t⟩
+  have hkd : k ∈ displays := by
+    simp only [List.mem_cons, List.mem_nil_iff, or_false] at hk
+    rcases hk with rfl | rfl | rfl <;> decide
+  have hin : e ∈ msgEntries x.defaultLanguage f.xpath f.d k := by
+    simp only [msgEntries, hm, msgUsesItext, if_true]
+    exact List.mem_map.mpr ⟨(l, t), hlt, rfl⟩
+  have he : e ∈ C07.ents x := by
+    apply C07.mem_ents_of_elem hf hv
+    apply List.mem_append.mpr; left
+    simp only [elemEntries, List.mem_append]
+    simp only [List.mem_cons, List.mem_nil_iff, or_false] at hk
+    rcases hk with rfl | rfl | rfl
+    · exact Or.inl (Or.inl (Or.inl (Or.inl (Or.inl hin))))
+    · exact Or.inl (Or.inl (Or.inl (Or.inl (Or.inr hin))))
+    · exact Or.inl (Or.inl (Or.inl (Or.inr hin)))
+  have hag : ∀ e' ∈ C07.ents x, sameKey e e' → e'.text = e.text := by
+    intro e' he' hkey
+    obtain ⟨hb, huniq⟩ := same_elem hx hf hkd he' hkey.2.1.symm
+    cases hb with
+    | msg k' hk' hp _ hl' =>
+      have hk'd : k' ∈ displays := by
+        simp only [List.mem_cons, List.mem_nil_iff, or_false] at hk'
+        rcases hk' with rfl | rfl | rfl <;> decide
+      have : k' = k := huniq k' hk'd hp
+      subst this
+      rw [hm] at hl'
+      exact hfun (e'.lang, e'.text) hl' (l, t) hlt hkey.1.symm
+    | label hp _ _ =>
+      have := huniq "label" (by decide) hp
+      subst this
+      simp at hk
+    | hint hp _ _ =>
+      have := huniq "hint" (by decide) hp
+      subst this
+      simp at hk
+    | guidance hp _ _ =>
+      have := huniq "hint" (by decide) hp
+      subst this
+      simp at hk
+    | media m _ hp _ _ =>
+      have := huniq "label" (by decide) hp
+      subst this
+      simp at hk
+  have h1 := valueAt_setup_agree he hag
+  exact valueAt_pad x.lists _ _ _ _ _ h1
+
+/-- **media** (`image`, `audio`, `video`, `big-image` — any key other than `long`): filed under the label id with the
+media type as content type -/
+theorem value_media {x : Survey} (hx : ((flats x).map (·.xpath)).Nodup) {f : Flat} (hf : f ∈ flats x)
+    (hv : visited f = true) {m : Media} (hm : f.d.media = some m) (hnd : (m.map (·.1)).Nodup)
+    {k : Str} {v : Txt} (hkv : (k, v) ∈ m) (hk : k ≠ "long".toList)
+    (hfun : Functional (langsOf x.defaultLanguage v)) {l t : Str} (hlt : (l, t) ∈ langsOf x.defaultLanguage v) :
+    valueAt (table x) l (path f.xpath "label") k = some t := by
+  let e : Ent := ⟨l, path f.xpath "label", k, t⟩
+  have he : e ∈ C07.ents x := by
+    apply C07.mem_ents_of_elem hf hv
+    apply List.mem_append.mpr; right
+    have hmt : mediaTruthy (some m) = true := by
+      cases m with
+      | nil => cases hkv
+      | cons a b => rfl
+    simp only [mediaEntries, hm, hmt, if_true, mediaEnts]
+    exact List.mem_flatMap.mpr ⟨(k, v), hkv, List.mem_map.mpr ⟨(l, t), hlt, rfl⟩⟩
+  have hag : ∀ e' ∈ C07.ents x, sameKey e e' → e'.text = e.text := by
+    intro e' he' hkey
+    obtain ⟨hb, huniq⟩ := same_elem hx hf (d := "label") (by decide) he' hkey.2.1.symm
+    have hform : e'.form = k := hkey.2.2.symm
+    cases hb with
+    | msg k' hk' hp _ _ =>
+      have hk'd : k' ∈ displays := by
+        simp only [List.mem_cons, List.mem_nil_iff, or_false] at hk'
+        rcases hk' with rfl | rfl | rfl <;> decide
+      have := huniq k' hk'd hp
+      subst this
+      simp at hk'
+    | label _ hfl _ => exact absurd (hform.symm.trans hfl) hk
+    | hint hp _ _ => exact absurd (huniq "hint" (by decide) hp) (by decide)
+    | guidance hp _ _ => exact absurd (huniq "hint" (by decide) hp) (by decide)
+    | media m' hm' _ _ hl' =>
+      rw [hm] at hm'
+      cases hm'
+      obtain ⟨kv, hkvm, hfk, hlang⟩ := hl'
+      have hk1 : kv.1 = k := hfk.symm.trans hform
+      have hkv2 : kv.2 = v := by
+        have h1 : (k, kv.2) ∈ m := by rw [← hk1]; exact hkvm
+        exact pair_unique hnd h1 hkv
+      rw [hkv2] at hlang
+      exact hfun (e'.lang, e'.text) hlang (l, t) hlt hkey.1.symm
+  have h1 := valueAt_setup_agree he hag
+  exact valueAt_pad x.lists _ _ _ _ _ h1
+
+/-! ### choices -/
+
+theorem mem_optsEntries {dl name : Str} : ∀ {os : List Opt} {k : Nat} {e : Ent}, e ∈ optsEntries dl name k os →
+    ∃ j o, os[j]? = some o ∧ e ∈ optEntries dl (choiceId name (k + j)) o
+  | [], _, _, h => by simp [optsEntries] at h
+  | o :: os, k, e, h => by
+    simp only [optsEntries, List.mem_append] at h
+    rcases h with h | h
+    · exact ⟨0, o, rfl, by simpa using h⟩
+    · obtain ⟨j, o', hj, he⟩ := mem_optsEntries h
+      exact ⟨j + 1, o', by simpa using hj, by rw [show k + (j + 1) = k + 1 + j by omega]; exact he⟩
+
+theorem optsEntries_of_mem {dl name : Str} : ∀ {os : List Opt} {k j : Nat} {o : Opt} {e : Ent}, os[j]? = some o →
+    e ∈ optEntries dl (choiceId name (k + j)) o → e ∈ optsEntries dl name k os
+  | [], _, _, _, _, h, _ => by simp at h
+  | o' :: os, k, 0, o, e, h, he => by
+    simp only [List.getElem?_cons_zero, Option.some.injEq] at h
+    subst h
+    simp only [optsEntries, List.mem_append]
+    exact Or.inl (by simpa using he)
+  | o' :: os, k, j + 1, o, e, h, he => by
+    simp only [List.getElem?_cons_succ] at h
+    simp only [optsEntries, List.mem_append]
+    exact Or.inr (optsEntries_of_mem h (by rw [show k + 1 + j = k + (j + 1) by omega]; exact he))
+
+theorem mem_choiceEntries {dl : Str} {lists : List CList} {e : Ent} (h : e ∈ choiceEntries dl lists) :
+    ∃ l ∈ lists, requiresItext l = true ∧ ∃ j o, l.options[j]? = some o ∧ e ∈ optEntries dl (choiceId l.name j) o := by
+  unfold choiceEntries at h
+  obtain ⟨l, hl, hin⟩ := List.mem_flatMap.mp h
+  split at hin
+  next hr =>
+    obtain ⟨j, o, hj, he⟩ := mem_optsEntries hin
+    exact ⟨l, hl, hr, j, o, hj, by simpa using he⟩
+  next => cases hin
+
+theorem eq_of_name {ls : List CList} (hn : (ls.map (·.name)).Nodup) {a b : CList} (ha : a ∈ ls) (hb : b ∈ ls)
+    (h : a.name = b.name) : a = b := by
+  induction ls with
+  | nil => cases ha
+  | cons c rest ih =>
+    simp only [List.map_cons, List.nodup_cons] at hn
+    rcases List.mem_cons.mp ha with hac | ha'
+    · rcases List.mem_cons.mp hb with hbc | hb'
+      · exact hac.trans hbc.symm
+      · exact absurd (List.mem_map.mpr ⟨b, hb', by rw [← h, hac]⟩) hn.1
+    · rcases List.mem_cons.mp hb with hbc | hb'
+      · exact absurd (List.mem_map.mpr ⟨a, ha', by rw [h, hbc]⟩) hn.1
+      · exact ih hn.2 ha' hb'
+
+/-- **translated choice label**: the text shown for a choice in a language is the text of that choice's label for
+that language — no other choice of any list, no element and no media of the choice writes there -/
+theorem value_choice_label {x : Survey} (hn : (x.lists.map (·.name)).Nodup) {l : CList} (hl : l ∈ x.lists)
+    (hr : requiresItext l = true) {i : Nat} {o : Opt} (hi : l.options[i]? = some o)
+    {pairs : List (Str × Str)} (hlab : o.label = .dict pairs) (hfun : Functional pairs)
+    (hlong : ∀ m, o.media = some m → "long".toList ∉ m.map (·.1))
+    {lang t : Str} (hlt : (lang, t) ∈ pairs) :
+    valueAt (table x) lang (choiceId l.name i) "long".toList = some t := by
+  let e : Ent := ⟨lang, choiceId l.name i, "long".toList, t⟩
+  have htruthy : o.label.truthy = true := by
+    rw [hlab]; cases pairs with
+    | nil => cases hlt
+    | cons a b => rfl
+  have he : e ∈ C07.ents x := by
+    apply C07.mem_ents_of_choice
+    unfold choiceEntries
+    refine List.mem_flatMap.mpr ⟨l, hl, ?_⟩
+    simp only [hr, if_true]
+    apply optsEntries_of_mem (k := 0) hi
+    simp only [Nat.zero_add, optEntries, htruthy, if_true, List.mem_append]
+    left
+    rw [hlab]
+    exact List.mem_map.mpr ⟨(lang, t), hlt, rfl⟩
+  have hag : ∀ e' ∈ C07.ents x, sameKey e e' → e'.text = e.text := by
+    intro e' he' hkey
+    have hp : e'.path = choiceId l.name i := hkey.2.1.symm
+    have hform : e'.form = "long".toList := hkey.2.2.symm
+    simp only [C07.ents, entries, List.mem_append] at he'
+    have notElem : ∀ f', e' ∈ elemEntries x.defaultLanguage f' ++ mediaEntries x.defaultLanguage f' → False := by
+      intro f' hin
+      obtain ⟨d, hd, hpd⟩ := block_display (block_of_mem hin)
+      exact choiceId_ne_path l.name i f'.xpath hd (hp.symm.trans hpd)
+    rcases he' with (he' | he') | he'
+    · obtain ⟨l', hl', _, j, o', hj, hin⟩ := mem_choiceEntries he'
+      have hpe : e'.path = choiceId l'.name j := path_optEntries hin
+      obtain ⟨hname, hji⟩ := choiceId_inj (hpe.symm.trans hp)
+      have hll : l' = l := eq_of_name hn hl' hl hname
+      subst hll; subst hji
+      rw [hi] at hj
+      cases hj
+      simp only [optEntries, htruthy, if_true, List.mem_append] at hin
+      rcases hin with hin | hin
+      · rw [hlab] at hin
+        obtain ⟨_, _, h3⟩ := mem_entsOf hin
+        exact hfun (e'.lang, e'.text) h3 (lang, t) hlt hkey.1.symm
+      · cases hmo : o.media with
+        | none => simp [hmo] at hin
+        | some m =>
+          simp only [hmo] at hin
+          split at hin
+          · unfold mediaEnts at hin
+            obtain ⟨kv, hkv, hin2⟩ := List.mem_flatMap.mp hin
+            obtain ⟨_, h2, _⟩ := mem_entsOf hin2
+            exact absurd (List.mem_map.mpr ⟨kv, hkv, h2.symm.trans hform⟩) (hlong m hmo)
+          · cases hin
+    · obtain ⟨f', _, hin⟩ := List.mem_flatMap.mp he'
+      exact (notElem f' (List.mem_append.mpr (Or.inl hin))).elim
+    · obtain ⟨f', _, hin⟩ := List.mem_flatMap.mp he'
+      exact (notElem f' (List.mem_append.mpr (Or.inr hin))).elim
   have h1 := valueAt_setup_agree he hag
   exact valueAt_pad x.lists _ _ _ _ _ h1
 
